@@ -167,6 +167,17 @@ theorem restart_same (s s' : St) (h : restart s = some s') :
       simp only [readAll, hrf]; rfl⟩
   · cases h
 
+/-- **Hard state.** After any admissible history the stored hard state is the last non-empty one
+handed to `SaveEntry` (or `WriteHardState`), with all three fields — term, vote, commit — whatever
+the previous one was (in particular when it differs from it only in the vote); with `restart_same`
+this is also what a restarted node reads back, through `GetHardState` and through `ReadAll`. -/
+theorem hard_state_refines (ops : List Op) (hv : ValidFrom empty ops) :
+    (run empty ops).hard = lastHard ops ∧
+    ∀ snap id hs es, readAll (run empty ops) snap = .ok (id, hs, es) → lastHard ops = some hs := by
+  refine ⟨hard_run ops hv, fun snap id hs es h => ?_⟩
+  rw [← hard_run ops hv]
+  exact (readAll_sound _ snap id hs es h).1
+
 /-- **Restart of a reachable state.** After any admissible history, a restart succeeds and
 changes nothing at all — the best block reloaded from the latest key, the number index and the
 block store is the one that was in memory — provided the stored blocks have pairwise different,
@@ -472,6 +483,10 @@ example : getRaftEntry (run empty (sampleOps.take 3)) 2 = .ok ⟨tEmpty, 2, 2, [
 /-- test: end of the sample history; the block entry at 2 carries block C -/
 example : lastIdx (run empty sampleOps) = 5 ∧ getRaftEntry (run empty sampleOps) 2 = .ok ⟨tBlock, 3, 2, [3]⟩ ∧
     getBlock (run empty sampleOps) [3] = .ok blkC ∧ (run empty sampleOps).hard = some ⟨2, 1, 1⟩ := by decide
+
+/-- test: a hard state that differs from the previous one only in the vote is the one stored (and survives the restart) -/
+example : (run empty [.save ⟨5, 0, 4⟩ [], .save ⟨5, 3, 4⟩ [], .save ⟨0, 0, 0⟩ [], .restart]).hard = some ⟨5, 3, 4⟩ ∧
+    lastHard [.save ⟨5, 0, 4⟩ [], .save ⟨5, 3, 4⟩ [], .save ⟨0, 0, 0⟩ [], .restart] = some ⟨5, 3, 4⟩ := by decide
 
 /-- test (lead 10): block B was written at index 2 and truncated by the overwrite `[empty@2]`; the
 block-addressed lookup still answers, with the *empty* entry now stored at index 2. -/
